@@ -171,7 +171,7 @@ def exec_real(case):
 
 @st.composite
 def strat(draw, tier):
-    case = draw(mtgen.mosaic_cases(tier, max_size=700 if tier == "quick" else 900))
+    case = draw(mtgen.mosaic_cases(tier, max_size=700 if tier == "quick" else 900, allow_inf=True))
     if case["k"] > 1:
         case["sched"] = draw(scen.schedules(max_size=100))
     return case
@@ -179,7 +179,7 @@ def strat(draw, tier):
 
 @st.composite
 def strat_real(draw, tier):
-    case = draw(mtgen.mosaic_cases(tier, max_size=600))
+    case = draw(mtgen.mosaic_cases(tier, max_size=600, allow_inf=True))
     case["k"] = draw(st.sampled_from([2, 3, 4]))
     return case
 
